@@ -180,10 +180,12 @@ CLAIMED.update({
         "DESIGN.md 4 C20, 5; checker/props/c20/REPORT.md",
     ),
     "C18": (
-        "constant-table evaluation from the type-checked source (edge pairing of the welded cube's index table), signed-volume polynomial identity and normal/face-normal dot products with symbolic width/height/depth (C17 polynomial engine)",
-        "Decides the property completely for ONE of the solids and nothing for the others: the welded cube (Cube.Welded) - every directed edge of its constant index table occurs exactly once with its reverse exactly once (closed, consistently oriented: CUBE-CLOSED), the signed volume sum of p0.(p1 x p2) equals 6 W H D as a polynomial identity (outward-facing, right volume: CUBE-VOLUME), supplied normals have a positive dot product with every incident face normal (CUBE-NORMAL). "
-        "NOT decided (stated limit, see DESIGN.md 5): closure / winding / volume of the UV sphere, hemisphere, capped cylinder and the cube of separate quads, which are index patterns over all row/column/side counts (needs an inductive edge-pairing proof) or go through trigonometric rotations. C02's GEN-BOUND / GEN-LEN / GEN-3 cover their index ranges and array lengths only.",
-        "go/types + go/ssa of x/tools v0.29.0; real arithmetic.",
+        "constant-table evaluation from the type-checked source (edge pairing of the welded cube's index table), signed-volume polynomial identity and normal/face-normal dot products with symbolic width/height/depth, symbolic interpretation of the sphere / hemisphere / cylinder / circle generators with sin and cos as uninterpreted atoms (single relation sin^2+cos^2=1), cyclic-successor recognition of ring loops (C17 polynomial engine)",
+        "Decides the welded cube completely - every directed edge of its constant index table occurs exactly once with its reverse exactly once (CUBE-CLOSED), the signed volume equals 6 W H D as a polynomial identity (CUBE-VOLUME), supplied normals have a positive dot product with every incident face normal (CUBE-NORMAL) - and, for the parametrised solids, structural necessary conditions only: "
+        "every supplied normal of UVSphere / Hemisphere.UV is a positive multiple of its own vertex position and every vertex lies on the sphere |p|^2 = r^2 (NORMAL-RADIAL); cylinder side normals are parallel to and point away from the axis like the position at the same index, arrays completely filled (NORMAL-CYL); the circle cap has one constant unit normal perpendicular to every stored position (CAP-NORMAL); "
+        "in every loop that emits triangles along a ring each counter-dependent index is base+i or base+(i+1) mod n with n the iteration count and the ring size, counter from 0 step 1 without early exit, so each ring vertex starts exactly one ring edge and ends exactly one (SEAM, no induction over rows). "
+        "NOT decided (stated limit, DESIGN.md 5): pairing across rows, orientation of strips and fans, cap orientation (needs numeric sin/cos values), the cylinder's bottom cap rotation and seam column, volumes of sphere / hemisphere / cylinder, Cube.UnweldedQuads.",
+        "go/types + go/ssa of x/tools v0.29.0; real arithmetic; sin/cos uninterpreted.",
         "DESIGN.md 5; checker/props/c18/REPORT.md",
     ),
 })
